@@ -20,7 +20,9 @@ func c18Relative(quick bool) []string {
 	out := c01SingleSteps()
 	out = append(out, "position()", "last()", ".", "position() = 1 and last() = 1", "self::node()[position()=last()]", "count(.)", "string(.)", "name()", "local-name(.)",
 		"..", "../..", "../*", "../@*", "../following-sibling::*", "ancestor::*[1]", "ancestor::node()[last()]", "preceding::*[1]", "following::node()[1]",
-		"../preceding-sibling::node()", "ancestor-or-self::*/@*", "../namespace::*", "/", "/*", "//a", ".//b", "*[1]", "*[last()]", "node()[2]", "@*[1]", "parent::*/child::*[2]")
+		"../preceding-sibling::node()", "ancestor-or-self::*/@*", "../namespace::*", "/", "/*", "//a", ".//b", "*[1]", "*[last()]", "node()[2]", "@*[1]", "parent::*/child::*[2]",
+		// absolute paths INSIDE an expression that does not itself start at the root
+		"*[//a]", "count(//a)", "(//a)[1]", ". | /*", "string(/*)", "self::node()[/*/a]", "count(//*) - count(.//*)", "*[count(//*) > 2]", "name(/*)", "//a = .", "@*[//b]", "(/)", "count(/)", " /*", "(//b | .)[1]", "-count(//a)", "parent::*[1] | //b", "boolean(/*/*)")
 	if !quick {
 		out = append(out, c01TwoSteps(false)...)
 	}
@@ -40,6 +42,8 @@ var c18Suffixes = []string{
 	"self::node()[last()=1]", "*[position()=last()]", "following::node()[2]", "../..",
 	// predicates whose value is a number without being spelled as one
 	"*[$n]", "node()[$n]", "*[$n][1]", "*[count(../*) - 1]", "*[string-length(name())]", "*[number(@x)]", "preceding-sibling::*[$n]", "*[count(*) + 1]", "ancestor::*[$one]", "*[$one + 1]",
+	// absolute paths inside the predicate of a relative step
+	"*[//a]", "self::node()[//b]", "node()[/*/a]", "*[count(//*) > 2]", "@*[//b]", "parent::*[//a/b]",
 }
 
 // c18Env: the C01 bindings plus two numeric variables for the predicates above.
